@@ -1425,7 +1425,7 @@ where
     ) -> Result<Prio3VerifierMessage<SEED_SIZE>, VdafError> {
         let mut verifiers = vec![T::Field::zero(); self.typ.verifier_len() * self.num_proofs()];
         let mut joint_rand_parts = Vec::with_capacity(self.num_aggregators());
-        let mut count = 0;
+        let mut count = 0usize;
         for share in inputs.into_iter() {
             count += 1;
 
@@ -1438,14 +1438,18 @@ where
             }
 
             if self.typ.joint_rand_len() > 0 {
-                let joint_rand_seed_part = share.joint_rand_part.unwrap();
+                let joint_rand_seed_part = share.joint_rand_part.ok_or_else(|| {
+                    VdafError::Uncategorized(
+                        "verifier share is missing the joint randomness part".to_string(),
+                    )
+                })?;
                 joint_rand_parts.push(joint_rand_seed_part);
             }
 
             add_assign_vector(&mut verifiers, share.verifiers.iter().copied());
         }
 
-        if count != self.num_aggregators {
+        if count != self.num_aggregators() {
             return Err(VdafError::Uncategorized(format!(
                 "unexpected message count: got {}; want {}",
                 count, self.num_aggregators,
